@@ -551,7 +551,9 @@ fn check_uv(r: &mut Report, w: &mut Worst, name: &str, verts: &[Point3], faces: 
 /// is the UV map an embedding (every UV triangle positively oriented, not a sliver)?  The round trip is only well defined then.
 fn uv_embedding(faces: &[[u32; 3]], uv: &[[f64; 2]]) -> bool {
     let d = diameter(uv);
+    // consistently oriented either way: a mirrored map (every UV triangle clockwise, e.g. the v axis flipped) is an embedding too
     faces.iter().all(|f| area2(uv[f[0] as usize], uv[f[1] as usize], uv[f[2] as usize]) > 1e-9 * d * d)
+        || faces.iter().all(|f| area2(uv[f[0] as usize], uv[f[1] as usize], uv[f[2] as usize]) < -1e-9 * d * d)
 }
 
 /// the round-trip clauses on a mesh that carries a UV map; `verts` / `faces` / `uv` are what the mesh is EXPECTED to hold
@@ -871,6 +873,13 @@ pub fn run() -> Option<Report> {
     uv_samples.push((format!("hand-made sheared UV on {}", c2.name), c2.verts.clone(), c2.faces.clone(), g8.pts.iter().map(shear).collect()));
     let c4 = &cs[4];
     uv_samples.push((format!("hand-made sheared UV on {}", c4.name), c4.verts.clone(), c4.faces.clone(), pol.pts.iter().map(shear).collect()));
+    // mirrored maps: the same UV positions with the v axis flipped / u and v exchanged (every UV triangle clockwise)
+    let n_plain = uv_samples.len();
+    for si in 0..n_plain {
+        let (name, verts, faces, uv) = uv_samples[si].clone();
+        if si % 2 == 0 { uv_samples.push((format!("{} [v axis flipped]", name), verts, faces, uv.iter().map(|p| [p[0], 0.75 - p[1]]).collect())); }
+        else { uv_samples.push((format!("{} [u and v exchanged]", name), verts, faces, uv.iter().map(|p| [p[1], p[0]]).collect())); }
+    }
     for (name, verts, faces, uv) in uv_samples.iter() { check_uv(&mut r, &mut w, name, verts, faces, uv); }
     // (e) every UV query again FAR from the origin (mesh built there), UV maps far from the UV origin, operation sequences
     let fars = [
